@@ -88,16 +88,73 @@ func instantiateQuantifiers(asserts []*Term) []*Term {
 		// ground selects by array term
 		ground := map[*Term][]*Term{}
 		var quants []*Term
+		var bvQuants []*Term
+		bvIdx := map[*Sort][]*Term{}
 		for _, t := range ord {
 			switch t.Op {
 			case "select":
 				if !t.hasB && t.Args[1].S == IntS {
-					ground[t.Args[0]] = append(ground[t.Args[0]], t.Args[1])
+					// a read of a store chain (or a merge of arrays) is, for all other indices, a read of the arrays below it
+					idxs := iteVariants(t.Args[1])
+					var reg func(a *Term, depth int)
+					reg = func(a *Term, depth int) {
+						ground[a] = append(ground[a], idxs...)
+						if depth > 8 {
+							return
+						}
+						switch a.Op {
+						case "store":
+							reg(a.Args[0], depth+1)
+						case "ite":
+							reg(a.Args[1], depth+1)
+							reg(a.Args[2], depth+1)
+						case "select":
+							// a row selected at a merged reference: it is one of the rows of the merged references
+							if len(a.Args) == 2 && a.Args[1].Op == "ite" && !a.Args[1].hasB {
+								reg(Select(a.Args[0], a.Args[1].Args[1]), depth+1)
+								reg(Select(a.Args[0], a.Args[1].Args[2]), depth+1)
+							}
+						}
+					}
+					reg(t.Args[0], 0)
 				}
 			case "forall":
 				if !t.hasB && len(t.Bound) == 1 && t.Bound[0].S == IntS {
 					quants = append(quants, t)
 				}
+				if !t.hasB && len(t.Bound) == 1 && t.Bound[0].S.K == SBV {
+					bvQuants = append(bvQuants, t)
+				}
+			case "bv2nat":
+				if !t.hasB {
+					bvIdx[t.Args[0].S] = append(bvIdx[t.Args[0].S], t.Args[0])
+				}
+			}
+		}
+		// quantifiers over a bit-vector used as an index (select A (+ off (bv2nat k))): instantiate at the
+		// ground bit-vectors whose integer value occurs in the query
+		for _, q := range bvQuants {
+			k := q.Bound[0]
+			uses := false
+			bo, _ := collect([]*Term{q.Args[0]})
+			for _, s := range bo {
+				if s.Op == "bv2nat" && s.Args[0] == k {
+					uses = true
+				}
+			}
+			if !uses {
+				continue
+			}
+			n := 0
+			for _, x := range bvIdx[k.S] {
+				key := [2]int{q.id, x.id}
+				if seen[key] || n >= 16 || total >= 600 {
+					continue
+				}
+				seen[key] = true
+				n++
+				total++
+				out = append(out, Implies(q, Subst(q.Args[0], map[*Term]*Term{k: x})))
 			}
 		}
 		added := 0
@@ -145,6 +202,35 @@ func instantiateQuantifiers(asserts []*Term) []*Term {
 		if added == 0 {
 			break
 		}
+	}
+	return out
+}
+
+// iteVariants: an index  ite(c, a, b) + rest  is, depending on c, one of  a + rest  and  b + rest:
+// all of them are offered to the syntactic matcher (at most two conditionals are split).
+func iteVariants(idx *Term) []*Term {
+	out := []*Term{idx}
+	konst := new(big.Int)
+	ads := addends(idx, nil, konst)
+	split := 0
+	for i, a := range ads {
+		if a.Op != "ite" || a.hasB || split >= 2 {
+			continue
+		}
+		split++
+		var next []*Term
+		for _, br := range []*Term{a.Args[1], a.Args[2]} {
+			sum := IntBig(konst)
+			for j, b := range ads {
+				if j == i {
+					sum = Add(sum, br)
+				} else {
+					sum = Add(sum, b)
+				}
+			}
+			next = append(next, sum)
+		}
+		out = append(out, next...)
 	}
 	return out
 }
